@@ -162,6 +162,28 @@ func scenarios(r *hxlib.Run) []scn {
 	if r.Thorough {
 		add(scn{Writer: "unpack-zip-big", Old: "absent", Var: "below-limit"})
 	}
+	// TWO writers of one destination at the same time (twowriters.go; untraced, forced overlap, free-running readers)
+	for i := 0; i < r.Budget(2, 6); i++ {
+		// NewLen = size of the large member in KiB
+		add(scn{Writer: "two-unpack-zip", Old: "absent", NewLen: []int{48, 24, 96, 160}[i%4] << 10, Var: "flat"})
+	}
+	add(scn{Writer: "two-unpack-zip", Old: "absent", NewLen: 32 << 10, Var: "sub"})
+	for _, old := range []string{"absent", "file"} {
+		add(scn{Writer: "two-create-atomic", Old: old, OldLen: small(), NewLen: 20000 + small()})
+		add(scn{Writer: "two-fstree-put", Old: old, OldLen: small(), NewLen: 200000 + small()})
+		add(scn{Writer: "two-rio-writefile", Old: old, OldLen: small(), NewLen: 1<<20 + small()})
+	}
+	add(scn{Writer: "two-getfile", Old: "absent", NewLen: 100000 + small()})
+	add(scn{Writer: "two-file-unpack", Old: "absent", NewLen: 100000 + small()})
+	if r.Thorough {
+		for i := 0; i < 4; i++ {
+			add(scn{Writer: "two-create-atomic", Old: "file", OldLen: small(), NewLen: boundary()})
+			add(scn{Writer: "two-fstree-put", Old: "file", OldLen: small(), NewLen: multi()})
+			add(scn{Writer: "two-rio-writefile", Old: "absent", NewLen: multi()})
+			add(scn{Writer: "two-getfile", Old: "absent", NewLen: multi()})
+			add(scn{Writer: "two-file-unpack", Old: "absent", NewLen: boundary() + 2})
+		}
+	}
 	// File.Unpack (gzip)
 	for _, old := range []string{"absent", "file"} {
 		for _, n := range sizes() {
